@@ -11,8 +11,8 @@ open List
 /-- per-grain kernel: the rotation rate is `A · Ω` with `Ω` skew (K7–K9) -/
 theorem rotation_is_A_skew (phase : Int) (crss : Crss) (A D L : Mat3) (p n lam : ℝ) :
     ∃ W : Mat3, IsSkew W ∧ (rotationAndStrainCore phase crss A D L p n lam).1 = mmul A W := by
-  have hz : ∃ W : Mat3, IsSkew W ∧ (zero3 : Mat3) = mmul A W :=
-    ⟨zero3, isSkew_zero, (mmul_zero A).symm⟩
+  have hz : ∃ W : Mat3, IsSkew W ∧ noSlipRotation A L = mmul A W :=
+    ⟨spinMat (spinVector L zero3 0), spinMat_skew _, by simp [noSlipRotation, orientationChange_eq]⟩
   have hr : ∀ r : Fin 4 → ℝ, ∃ W : Mat3, IsSkew W ∧ (rotationFromRates crss A L r p n lam).1 = mmul A W := by
     intro r
     refine ⟨spinMat (spinVector L (deformationRate A r) (slipRateSoftest (deformationRate A r) L)),
